@@ -33,7 +33,8 @@ import (
 
 // Mode selects the spec served by a world instance.
 type Mode struct {
-	Ctl bool // C16ctl
+	Ctl  bool // C16ctl
+	Lock bool // C20lock: the lockstep build (DESIGN §16.1) - migrillian core, scanner, client and jsonclient rewritten
 }
 
 // epoch is the exactly-once bookkeeping of one uninterrupted Run (as far as the environment can tell).
